@@ -63,6 +63,34 @@ func checkC22(r *Run) {
 			_, m := matchAny([]string{length + " < 4", "$1 < " + length}, fs)
 			r.Check("C22-R1", dd+": invalid-length disconnect only for length < 4 or length > max", r.P.Pos(ex.Pos), m, "")
 		default:
+			// the two length checks may live in a single-use helper: then every error the helper returns must be
+			// the invalid-length disconnect, under the same conditions
+			if hc, ok := ex.Ret.Results[1].(*ssa.Call); ok {
+				if h := hc.Call.StaticCallee(); h != nil && r.P.singleUse(h) {
+					hf := r.P.Facts(h)
+					var args []string
+					for _, a := range hc.Call.Args {
+						args = append(args, ff.Term(a))
+					}
+					good, n := true, 0
+					for _, hx := range hf.Exits() {
+						if hx.Kind == ExitSuccess || hx.Ret == nil {
+							continue
+						}
+						n++
+						var fs []string
+						for _, a := range hf.Must(hx.Block) {
+							fs = append(fs, substParams(a.S, args))
+						}
+						_, m := matchAny([]string{length + " < 4", "$1 < " + length}, fs)
+						if hf.Term(hx.Ret.Results[len(hx.Ret.Results)-1]) != "daemon/gnet.ErrDisconnectInvalidMessageLength" || !m {
+							good = false
+						}
+					}
+					r.Check("C22-R1", dd+": invalid-length disconnect (in helper "+FnName(h)+") only for length < 4 or length > max", r.P.Pos(ex.Pos), good && n > 0, "")
+					continue
+				}
+			}
 			_, isRead := matchAny([]string{"bytes.Buffer.Read($0, *)#1"}, []string{errT})
 			r.Check("C22-R1", dd+": other error return "+trunc(errT, 60), r.P.Pos(ex.Pos), isRead, "only the Read error may be propagated")
 		}
